@@ -67,13 +67,14 @@ class FileStore(RuleBasedStateMachine):
     # -- set-up ---------------------------------------------------------------
     @initialize(flat=st.booleans(), gz=st.booleans(),
                 level=st.sampled_from([0, 1, 9]),
+                via=st.sampled_from(["direct", "plain", "file",
+                                     "precomputed_file"]),
                 file_mimes=st.lists(st.integers(0, 3), min_size=len(NAMES),
                                     max_size=len(NAMES)),
                 key_mimes=st.lists(st.integers(0, 3), min_size=len(KEYS),
                                    max_size=len(KEYS)))
     @logged
-    def setup(self, flat, gz, level, file_mimes, key_mimes):
-        from neuroglancer_scripts.file_accessor import FileAccessor
+    def setup(self, flat, gz, level, file_mimes, key_mimes, via="direct"):
         self.root = self._ctx.tmpdir("fs")
         self.base = os.path.join(self.root, "ds")
         os.makedirs(self.base)
@@ -81,8 +82,7 @@ class FileStore(RuleBasedStateMachine):
             f.write(b"sentinel")
         os.makedirs(os.path.join(self.root, "ds_sibling"))
         self.cfg = {"flat": flat, "gzip": gz, "compresslevel": level}
-        self.acc = FileAccessor(self.base, flat=flat, gzip=gz,
-                                compresslevel=level)
+        self.acc = self.make_writer(via)
         self.file_mime = {n: MIMES[i] for n, i in zip(NAMES, file_mimes)}
         self.file_mime["info"] = "application/json"
         self.key_mime = {k: MIMES[i] for k, i in zip(KEYS, key_mimes)}
@@ -92,6 +92,23 @@ class FileStore(RuleBasedStateMachine):
             shutil.rmtree(self.root, ignore_errors=True)
 
     # -- helpers ---------------------------------------------------------------
+    def make_writer(self, via):
+        """The one storage configuration of this directory, obtained either
+        by constructing the accessor directly or through the public factory
+        (as every script does)."""
+        from neuroglancer_scripts import accessor, file_accessor
+        if via == "direct":
+            return file_accessor.FileAccessor(
+                self.base, flat=self.cfg["flat"], gzip=self.cfg["gzip"],
+                compresslevel=self.cfg["compresslevel"])
+        url = {"plain": self.base, "file": "file://" + self.base,
+               "precomputed_file": "precomputed://file://" + self.base}[via]
+        acc = accessor.get_accessor_for_url(url, dict(self.cfg))
+        if not isinstance(acc, file_accessor.FileAccessor):
+            self.fail("URL %r gave a %s" % (url, type(acc).__name__))
+        self.ops.add("writer_via_factory")
+        return acc
+
     def fail(self, msg):
         self._ctx.fail("%s (config %s)" % (msg, self.cfg))
 
@@ -256,6 +273,14 @@ class FileStore(RuleBasedStateMachine):
             self.fail("fetch_chunk(%s, %s) via %s returned %r..., last stored "
                       "%r..." % (key, cc, who, got[:20],
                                  self.chunks[(key, cc)][:20]))
+
+    @rule(via=st.sampled_from(["direct", "plain", "file",
+                               "precomputed_file"]))
+    @logged
+    def new_writer_same_config(self, via):
+        """A later command opens the directory again with the same options."""
+        self.acc = self.make_writer(via)
+        self.ops.add("writer_reopened")
 
     # -- other configurations / URL forms -----------------------------------------
     @rule(flat=st.booleans(), gz=st.booleans())
